@@ -63,6 +63,12 @@ pub enum HistOp
     {
         which: u16,
     },
+    /// cut a statement (with its ID, if any) and paste it into another file: IDs stay unique
+    MoveStmt
+    {
+        which: u16,
+        to_file: u16,
+    },
     RunCheck,
     RunEdit(Plan),
 }
@@ -95,6 +101,7 @@ fn hist_op() -> BoxedStrategy<HistOp>
         3 => (any::<u16>(), prop_oneof![Just(true), Just(false)]).prop_map(|(which, highest)| HistOp::DelStmt { which, highest }),
         1 => (1u8..4).prop_map(|stmts| HistOp::AddFile { stmts }),
         1 => any::<u16>().prop_map(|which| HistOp::DelFile { which }),
+        2 => (any::<u16>(), any::<u16>()).prop_map(|(which, to_file)| HistOp::MoveStmt { which, to_file }),
         1 => Just(HistOp::RunCheck),
         6 => plan().prop_map(HistOp::RunEdit),
     ]
@@ -374,6 +381,47 @@ pub fn check(h: &History) -> CaseOutcome
                 let _ = std::fs::remove_file(f);
                 log.push(format!("{}: delete file {}", step, f.file_name().unwrap().to_string_lossy()));
             },
+            HistOp::MoveStmt { which, to_file } =>
+            {
+                let sc = scan(&w);
+                let files = w.files();
+                if sc.is_empty() || files.len() < 2
+                {
+                    continue;
+                }
+                let victim = sc[idx16(*which, sc.len())].clone();
+                let dest = files[idx16(*to_file, files.len())].clone();
+                if dest == victim.0
+                {
+                    continue;
+                }
+                let text = std::fs::read_to_string(&victim.0).unwrap_or_default();
+                let mut moved = String::new();
+                let kept: Vec<&str> = text
+                    .lines()
+                    .enumerate()
+                    .filter(|(i, l)| {
+                        if *i == victim.1
+                        {
+                            moved = l.to_string();
+                            false
+                        }
+                        else
+                        {
+                            true
+                        }
+                    })
+                    .map(|(_, l)| l)
+                    .collect();
+                std::fs::write(&victim.0, kept.join("\n") + "\n").unwrap();
+                let dtext = std::fs::read_to_string(&dest).unwrap_or_default();
+                let mut dl: Vec<String> = dtext.lines().map(|s| s.to_string()).collect();
+                let at = dl.len().saturating_sub(1).max(1).min(dl.len());
+                dl.insert(at, moved);
+                std::fs::write(&dest, dl.join("\n") + "\n").unwrap();
+                o.class("moved-statement-between-files");
+                log.push(format!("{}: move statement u{} (id {:?}) to {}", step, victim.2, victim.3, dest.file_name().unwrap().to_string_lossy()));
+            },
             HistOp::RunCheck =>
             {
                 let before = snapshot(&w.sb.proj());
@@ -509,7 +557,7 @@ pub fn run(env: &Env, rec: &Recorder) -> (String, Vec<&'static str>)
 {
     pbt_opts(env, rec, "histories", env.cases(1500, 30000), 300, &strategy, &check);
     (
-        "histories of 4-25 operations over a project of 1-4+ files with the lock in use and never touched by the developer: add statement / delete statement (biased to the highest ID) / add file / delete file / --check / edit run carrying a fault plan (none 50 %, one or two injected I/O failures, SIGTERM/SIGINT, SIGKILL, or TMPDIR really on another filesystem; positioned by a fraction mapped onto the operation count of a recording run on a copy). Ghost map ID -> statement identity (unique marker in each message); after every run the harness's own scanner reads the tree: an ID seen with a different statement than before is a reuse; after every edit run, however it ended, a parsable lock must be ahead of every ID ever written; --check must change nothing. Non-trivial = distinct history where a faulted/interrupted edit that inserted IDs, or the deletion of the statement with the highest ID, is followed by a later edit that inserts IDs".to_string(),
+        "histories of 4-25 operations over a project of 1-4+ files with the lock in use and never touched by the developer: add statement / delete statement (biased to the highest ID) / move a statement with its ID to another file / add file / delete file / --check / edit run carrying a fault plan (none 50 %, one or two injected I/O failures, SIGTERM/SIGINT, SIGKILL, or TMPDIR really on another filesystem; positioned by a fraction mapped onto the operation count of a recording run on a copy). Ghost map ID -> statement identity (unique marker in each message); after every run the harness's own scanner reads the tree: an ID seen with a different statement than before is a reuse; after every edit run, however it ended, a parsable lock must be ahead of every ID ever written; --check must change nothing. Non-trivial = distinct history where a faulted/interrupted edit that inserted IDs, or the deletion of the statement with the highest ID, is followed by a later edit that inserts IDs".to_string(),
         vec!["developer copy/paste of a statement together with its ID is not generated (duplicates not caused by the tool)", "the developer never edits or deletes Breadlog.lock", "an absent or unparsable lock is judged through the reuse oracle on later steps, not directly"],
     )
 }
